@@ -69,4 +69,55 @@ example : subst (fun _ => none) "${A:-{} ${B}".toList = .err .invalid := by
 
 example : firstClose "${A:-a}b}".toList = some 6 := by decide
 
+/-! ## No closed form in terms of the AST for unbalanced arguments -/
+
+
+/-- Outside `WF` the concrete syntax does not determine the AST: an argument literal with an unbalanced `{`
+    followed by a literal `}` renders to the same text as the balanced literal `{}` — and the two ASTs mean
+    different things when the variable is set.  No function of the text can be `evalOut` on both. -/
+theorem unbalanced_literal_is_ambiguous :
+    let t1 : List Seg := [.op ['A'] .colonDash [.lit ['{']], .lit ['}']]
+    let t2 : List Seg := [.op ['A'] .colonDash [.lit ['{', '}']]]
+    let env : Env := fun n => if n = ['A'] then some ['v'] else none
+    renderL t1 = renderL t2 ∧ WF t2 = true ∧ WF t1 = false ∧
+    evalOut env t1 = .ok ['v', '}'] ∧ evalOut env t2 = .ok ['v'] := by
+  decide
+
+/-- consequently `Substitute` follows the balanced reading and differs from the meaning of the unbalanced AST -/
+theorem unbalanced_literal_follows_balanced_reading :
+    let t1 : List Seg := [.op ['A'] .colonDash [.lit ['{']], .lit ['}']]
+    let env : Env := fun n => if n = ['A'] then some ['v'] else none
+    subst env (renderL t1) = .ok ['v'] ∧ subst env (renderL t1) ≠ evalOut env t1 := by
+  intro t1 env
+  have h2 := subst_render env [.op ['A'] .colonDash [.lit ['{', '}']]] (by decide)
+  have hr : renderL t1 = renderL [.op ['A'] .colonDash [.lit ['{', '}']]] := by decide
+  have he : evalOut env [.op ['A'] .colonDash [.lit ['{', '}']]] = .ok ['v'] := by decide
+  have h1 : evalOut env t1 = .ok ['v', '}'] := by decide
+  rw [hr, h2, he, h1]
+  exact ⟨rfl, by decide⟩
+
+
+theorem unbalanced_open_instance : subst (fun _ => none) "${A:-{} ${B}".toList = .err .invalid := by
+  have := subst_op_unbalanced_open (fun _ => none) [] ['A'] .colonDash "{} ${B".toList [] (by decide) (by decide)
+    (by intro c hc; revert c; decide) (by rintro ⟨c, hc, _⟩; simp at hc) (by decide)
+  simp only [renderL, List.nil_append, Op.str, List.cons_append] at this
+  have hb : subst (fun _ => none) "{} ${B".toList = .err .invalid := by decide
+  rw [show "${A:-{} ${B}".toList = '$' :: '{' :: ('A' :: ':' :: '-' :: ("{} ${B".toList ++ ['}'])) from by decide, this, hb]
+  decide
+
+/-- … and there is no per-segment meaning either: the same segment `${A:-{}` (unbalanced `{` in the default)
+    means `{` at the end of the text but swallows a later `${B}` on the same line — what an unbalanced argument
+    contributes depends on the text that follows it, so no closed form in terms of the AST exists -/
+theorem unbalanced_argument_not_compositional :
+    let seg : Seg := .op ['A'] .colonDash [.lit ['{']]
+    let env : Env := fun _ => none
+    subst env (seg.render ++ []) = seq (toOut (seg.eval env)) (subst env []) ∧
+    subst env (seg.render ++ " ${B}".toList) ≠ seq (toOut (seg.eval env)) (subst env " ${B}".toList) := by
+  intro seg env
+  constructor
+  · decide
+  · have h1 : subst env (seg.render ++ " ${B}".toList) = .err .invalid := unbalanced_open_instance
+    have h2 : seq (toOut (seg.eval env)) (subst env " ${B}".toList) = .ok "{ ".toList := by decide
+    rw [h1, h2]; decide
+
 end CV.Template
